@@ -8,6 +8,7 @@ import (
 	"fmt"
 	"io"
 	"net"
+	"os"
 	"strings"
 	"sync"
 	"syscall"
@@ -83,11 +84,11 @@ func (r *c20Reader) ReadPacketData() ([]byte, *gopacket.CaptureInfo, error) {
 		r.buf = append(r.buf, r.script[i], byte(i>>8), byte(i), 0xEE)
 		return r.buf, &gopacket.CaptureInfo{Length: 4, CaptureLength: 4}, nil
 	case 'A':
-		return nil, nil, syscall.EAGAIN
+		return nil, nil, c20Wrapped(syscall.EAGAIN, i)
 	case 'T':
 		return nil, nil, c20Timeout{i}
 	case 'R':
-		return nil, nil, syscall.ECONNRESET
+		return nil, nil, c20Wrapped(syscall.ECONNRESET, i)
 	case 'U':
 		return nil, nil, r.errs[i]
 	case 'E':
@@ -102,6 +103,21 @@ func (r *c20Reader) ReadPacketData() ([]byte, *gopacket.CaptureInfo, error) {
 		return nil, nil, errors.New("read packet: use of closed file")
 	}
 	panic("bad script symbol")
+}
+
+// a would-block / connection-reset failure in the forms the standard library hands them out: the bare errno, the errno
+// inside *os.SyscallError inside *net.OpError (what package net returns for a socket read), and annotated with %w -
+// sx recognises all of them with errors.Is
+func c20Wrapped(e syscall.Errno, i int) error {
+	switch i % 4 {
+	case 1:
+		return &net.OpError{Op: "read", Net: "packet", Err: os.NewSyscallError("recvfrom", e)}
+	case 2:
+		return &net.OpError{Op: "read", Net: "packet", Err: fmt.Errorf("recvfrom: %w", e)}
+	case 3:
+		return fmt.Errorf("read packet: %w", e)
+	}
+	return e
 }
 
 type c20Proc struct {
@@ -444,5 +460,24 @@ func FuzzC20Script(f *testing.F) {
 		if v := c20Check(c); v.Err != nil {
 			t.Fatalf("property C20 violated: %v", v.Err)
 		}
+	})
+}
+
+// Long histories: a socket whose reads fail for longer than any built-in patience, and a consumer of the error stream that
+// is away for seconds while more failures are pending than the stream buffers. C20_LONG selects the variant.
+func TestC20Long(t *testing.T) {
+	variant := kit.EnvInt("C20_LONG", 0)
+	kit.Run(t, kit.Spec[c20Case]{
+		Prop: "C20",
+		Rule: "long histories: (variant 0) a frame, 2200..2600 consecutive unknown read failures (11..13 s at the receiver's 5 ms pause), a frame, EOF - every failure reported once in order, both frames processed, reading goes on until the EOF; (variant 1) a frame, 120..160 unknown read failures, frames (one failing in processing), EOF, while the consumer of the error stream starts only 3.5..6 s later (more failures pending than the stream buffers) - nothing dropped. Oracle = the reference machine of TestC20Random. non-trivial: always; distinct by case",
+		Gen: func(t *rapid.T) c20Case {
+			if variant == 0 {
+				n := rapid.IntRange(2200, 2600).Draw(t, "failures")
+				return c20Case{Script: "F" + strings.Repeat("U", n) + "FE", Cancel: -1}
+			}
+			n := rapid.IntRange(120, 160).Draw(t, "failures")
+			return c20Case{Script: "F" + strings.Repeat("U", n) + "FPFE", Cancel: -1, LazyMs: rapid.IntRange(3500, 6000).Draw(t, "consumer-away-ms")}
+		},
+		Check: c20Check,
 	})
 }
